@@ -30,6 +30,7 @@ class Config:
     guards: frozenset = frozenset()       # condition texts recorded when decided
     no_inline: frozenset = frozenset()    # function names kept opaque in this run
     muted: frozenset = frozenset({"except", "ctx"})
+    path_cap: int = 0                     # 0: the global cap
 
 
 BASE = Config(watch=frozenset({"execute_with_timeout", "on_timeout", "on_cancel"}), guards=frozenset({"execution.is_canceled", "parent_id", "phase is not None", "downstream_stages", "not downstream_stages", "activated_downstreams"}))
@@ -91,6 +92,8 @@ def _work(job):
     interp_cfg.NO_INLINE |= set(cfg.no_inline)
     try:
         it = Interp(ctx.prog, ctx.st, watch=set(cfg.watch), guards=set(cfg.guards))
+        if cfg.path_cap:
+            it.path_cap = cfg.path_cap
         if kind == "handler":
             entry = [h for h in registered_handlers(ctx.prog) if h.cls.name == a and h.message == b][0]
             fi = ctx.prog.find_method(entry.cls, "handle")
